@@ -412,7 +412,7 @@ class Simulator(EventProducer, SimulatorInterface, Generic[TIME]):
                             Simulator.START_EVENT, None)
             self._step_impl()
         except Exception as e:
-            print("Simulator step got exception: " + e)
+            print("Simulator step got exception: " + str(e))
         finally:
             self.fire_timed(self._simulator_time,
                             Simulator.STOP_EVENT, None)
